@@ -3,6 +3,7 @@ import EaselModel.Getopts.Abbrev
 import EaselModel.Getopts.Ranges
 import EaselModel.Getopts.RealOrder
 import EaselModel.Getopts.Tokens
+import EaselModel.Getopts.WfCheck
 /-! # C14 — option processing resolves every configuration by the documented rules
 
 Property theorems about the executable model `EaselModel.Getopts` of `esl_getopts.c` (tied to the working tree by
@@ -19,7 +20,7 @@ and every sequence of sources:
 * (d) `--`, arguments in order: `dashdash_ends_options`, `first_nonoption_ends_options`, `options_end_where_documented`, `remaining_args_in_order`, `args_returned_in_order`, `getArg_spec`
 * "plus/minus-prefixed booleans": no such feature exists in this version; `plus_word_is_argument` states what the code does.
 * (e) usage errors, never a crash: `every_history_ends_cleanly`, `cmdline_ends_cleanly`, `spoof_ends_cleanly`, `environment_ends_cleanly`,
-  `configfile_ends_cleanly`, `setting_succeeds_iff`, `integer_argument_syntax`, `real_argument_syntax`, `char_argument_syntax`, `rejected_setting_changes_nothing`, `unknown_long_option`, `ambiguous_long_option`,
+  `configfile_ends_cleanly`, `setting_succeeds_iff`, `integer_argument_syntax`, `real_argument_syntax`, `real_argument_syntax_iff`, `wf_is_computable`, `strict_tables_are_wf`, `created_object_every_history_clean`, `char_argument_syntax`, `rejected_setting_changes_nothing`, `unknown_long_option`, `ambiguous_long_option`,
   `unknown_short_option`, `argument_to_flag`, `missing_argument_long`, `verifyConfig_spec`
 * (f) queries: `isUsed_iff`, `isDefault_of_default_setter`, `not_default_has_setter`
 
@@ -278,6 +279,9 @@ theorem integer_argument_syntax (s : Str) : isInteger s = true ↔ IntSyntax s :
     blanks, optional sign, digits with an optional point (at least one digit), optional exponent, blanks -/
 theorem real_argument_syntax (s : Str) (h : isReal s = true) : RealSyntax s := isReal_sound s h
 
+/-- … and conversely everything of that shape is accepted: an exact characterisation -/
+theorem real_argument_syntax_iff (s : Str) : isReal s = true ↔ RealSyntax s := isReal_iff s
+
 /-- "a value of the wrong type", characters: accepted iff at most one character (then the range is consulted) -/
 theorem char_argument_syntax (o : Opt) (v : Str) (src : Nat) (ht : o.type = 3) :
     verifyTypeRange o (some v) src = .good ↔ (v.length ≤ 1 ∧ charRangeOk v o.range = true) := by
@@ -287,6 +291,22 @@ theorem char_argument_syntax (o : Opt) (v : Str) (src : Nat) (ht : o.type = 3) :
   by_cases hl : v.length > 1
   · simp [hl]
   · cases hr : charRangeOk v o.range <;> simp [hl, hr] <;> omega
+
+/-- the hypothesis `WF` of the theorems is computable (`wfB`), and so is the stricter class of tables following the
+    documented conventions (`wfStrictB`: distinct `-c`/`--word` names, list elements resolving to exactly the named
+    options, toggle lists naming only boolean/string options, valid defaults); the driver evaluates `wfStrictB` on every
+    table of the correspondence run, so the generator provably stays inside the hypothesis -/
+theorem wf_is_computable (opts : List Opt) : wfB opts = true ↔ WF opts := wfB_iff opts
+
+theorem strict_tables_are_wf {opts : List Opt} (h : wfStrictB opts = true) : WF opts := wfStrictB_wf h
+
+/-- from `esl_getopts_Create` on: for a table passing the computable check, every sequence of sources ends cleanly -/
+theorem created_object_every_history_clean {opts : List Opt} {g : G} (hc : create opts = some g) (hw : wfB opts = true) (ss : List Src) :
+    ∃ outs g', runAll g ss = some (outs, g') ∧ outs.length = ss.length ∧ Inv g' ∧ g'.opts = opts ∧
+      ∀ o ∈ outs, Clean o.1 o.2 ∨ o = (.einval, true) := by
+  obtain ⟨ho, hinv, _⟩ := create_spec hc
+  obtain ⟨outs, g', h1, h2, h3, h4, h5⟩ := runAll_clean ss g hinv (by rw [ho]; exact (wfB_iff opts).mp hw)
+  exact ⟨outs, g', h1, h2, h3, h4.trans ho, h5⟩
 
 /-- already set by this source, wrong type, out of range: usage error with a message, object untouched -/
 theorem rejected_setting_changes_nothing {g : G} {i src : Nat} {arg : Option Str}
@@ -438,6 +458,7 @@ def demo : List Opt := [
 def demoG : G := (create demo).getD default
 
 example : create demo = some demoG := by decide
+example : wfStrictB demo = true := by decide
 example : Inv demoG := ⟨by decide, by decide⟩
 
 theorem demo_wf : WF demo := by
